@@ -42,7 +42,7 @@ func Run(r *core.Run) {
 		// whose X lies between the group order and the field prime (valid points; only public-key operations are applied to them)
 		special := []*keys.Key{}
 		if t != "Ed25519" {
-			special = append(special, keys.WithTwoLeadingZeros(t, 0), keys.WithTwoLeadingZeros(t, 1))
+			special = append(special, keys.WithTwoLeadingZeros(t, 0), keys.WithTwoLeadingZeros(t, 1), keys.WithBothLeadingZeros(t))
 			for j := 0; j < 4; j++ {
 				special = append(special, keys.PublicWithXAtLeastOrder(t, j))
 			}
